@@ -723,6 +723,11 @@ func coinTable() []uint64 {
 	add(9223372036854775808)  // MaxInt64+1
 	add(92233720368547758)    // MaxInt64/100
 	add(18446744073709549568) // largest float64 below 2^64
+	for _, v := range []uint64{9223372030000000000, 9223372040000000000, 18446744070000000000, 9223372036000000000, 9007199254740992000} { // whole ZCN amounts around MaxInt64 / MaxUint64 / 2^53
+		add(v - 1)
+		add(v)
+		add(v + 1)
+	}
 	return t
 }
 
@@ -756,6 +761,12 @@ func floatTable() []float64 {
 		two53 - 1, two53, two53 + 2, math.Nextafter(two63, 0), two63, math.Nextafter(two63, math.Inf(1)),
 		math.Nextafter(two64, 0), two64, math.Nextafter(two64, math.Inf(1)), 1e19, 1.8446744073709552e19, 1e30, 1e300, math.MaxFloat64, math.Inf(1),
 		9.223372036854775807e8, 922337203.6854775, 922337203.6854776, 1e-300, 0.3, 1.0 / 3}
+	// ZCN boundary classes derived from the constants: whole and fractional amounts around MaxInt64/1e10 and
+	// MaxUint64/1e10 and around 2^53, each with its two neighbours (±1 ulp)
+	for _, v := range []float64{922337203, 922337203.6854775807, 922337204, 922337203.5, 1844674407, 1844674407.3709551615, 1844674408,
+		9223372036, 18446744073, two53 - 1, two53, two53 + 2, 900719925.4740992, 9007199254.740992} {
+		pos = append(pos, math.Nextafter(v, 0), v, math.Nextafter(v, math.Inf(1)))
+	}
 	var t []float64
 	for _, p := range pos {
 		t = append(t, p, -p)
